@@ -225,7 +225,7 @@ class _Normaliser(ast.NodeTransformer):
 
     @staticmethod
     def _is_temp_pair(s, nxt) -> bool:
-        return isinstance(s, ast.Assign) and len(s.targets) == 1 and isinstance(s.targets[0], ast.Name) and isinstance(s.value, ast.Call) and isinstance(nxt, ast.Return) and isinstance(nxt.value, ast.Name) and nxt.value.id == s.targets[0].id
+        return isinstance(s, ast.Assign) and len(s.targets) == 1 and isinstance(s.targets[0], ast.Name) and isinstance(s.value, (ast.Call, ast.BinOp, ast.IfExp, ast.Compare, ast.BoolOp, ast.Subscript, ast.Tuple, ast.ListComp, ast.DictComp, ast.SetComp)) and isinstance(nxt, ast.Return) and isinstance(nxt.value, ast.Name) and nxt.value.id == s.targets[0].id
 
     # N5 works on statement lists
     def _merge_temp_returns(self, body: list) -> list:
@@ -240,7 +240,7 @@ class _Normaliser(ast.NodeTransformer):
                 out.append(r)
                 i += 2
                 continue
-            if isinstance(s, ast.Return) and isinstance(s.value, ast.Call) and not hasattr(s, "_v"):
+            if isinstance(s, ast.Return) and isinstance(s.value, (ast.Call, ast.BinOp, ast.IfExp, ast.Compare, ast.BoolOp, ast.Subscript, ast.Tuple, ast.ListComp, ast.DictComp, ast.SetComp)) and not hasattr(s, "_v"):
                 s._v = 0
             out.append(s)
             i += 1
@@ -250,6 +250,36 @@ class _Normaliser(ast.NodeTransformer):
     @staticmethod
     def _ends_with_jump(body: list) -> bool:
         return bool(body) and isinstance(body[-1], (ast.Return, ast.Raise, ast.Continue, ast.Break))
+
+    @staticmethod
+    def _is_const_return(st, value) -> bool:
+        return isinstance(st, ast.Return) and isinstance(st.value, ast.Constant) and st.value.value is value
+
+    def _bool_returns(self, body: list) -> list:
+        """N13: `if E: return True` followed by `return False`  ==  `return bool(E)` (and the negated pair)"""
+        out = []
+        i = 0
+        while i < len(body):
+            s = body[i]
+            nxt = body[i + 1] if i + 1 < len(body) else None
+            if isinstance(s, ast.If) and not s.orelse and len(s.body) == 1 and not hasattr(s, "_v") and ((self._is_const_return(s.body[0], True) and self._is_const_return(nxt, False))):
+                s._v = ["boolret", 0]
+                out.extend([s, nxt])
+                i += 2
+                continue
+            if isinstance(s, ast.Return) and isinstance(s.value, ast.Call) and isinstance(s.value.func, ast.Name) and s.value.func.id == "bool" and len(s.value.args) == 1 and not s.value.keywords:
+                m = ast.If(test=s.value.args[0], body=[ast.Return(value=ast.Constant(value=True))], orelse=[])
+                r = ast.Return(value=ast.Constant(value=False))
+                for x in (m, r):
+                    ast.copy_location(x, s)
+                    ast.fix_missing_locations(x)
+                m._v = ["boolret", 1]
+                out.extend([m, r])
+                i += 1
+                continue
+            out.append(s)
+            i += 1
+        return out
 
     def _hoist_else(self, body: list) -> list:
         out = []
@@ -269,7 +299,7 @@ class _Normaliser(ast.NodeTransformer):
         for fld in ("body", "orelse", "finalbody"):
             b = getattr(node, fld, None)
             if isinstance(b, list) and b and isinstance(b[0], ast.stmt):
-                setattr(node, fld, self._hoist_else(self._merge_temp_returns(b)))
+                setattr(node, fld, self._hoist_else(self._bool_returns(self._merge_temp_returns(b))))
         return node
 
     def visit_AnnAssign(self, n):
@@ -409,8 +439,66 @@ class _Normaliser(ast.NodeTransformer):
             n._v = ["fromkeys", 0]
         return n
 
+    def visit_SetComp(self, n):
+        n = self.generic_visit(n)
+        m = ast.copy_location(ast.Call(func=ast.Name(id="set", ctx=ast.Load()), args=[ast.GeneratorExp(elt=n.elt, generators=n.generators)], keywords=[]), n)
+        ast.fix_missing_locations(m)
+        m._v = ["comp", 1]
+        return m
+
+    def visit_List(self, n):
+        n = self.generic_visit(n)
+        if isinstance(n.ctx, ast.Load) and any(isinstance(e, ast.Starred) for e in n.elts):
+            # N10: [a, *X, b]  ->  [a] + X + [b]   (X written bare: it was a list operand of `+` before the rewrite)
+            segs, cur = [], []
+            for e in n.elts:
+                if isinstance(e, ast.Starred):
+                    if cur:
+                        segs.append(ast.List(elts=cur, ctx=ast.Load()))
+                        cur = []
+                    segs.append(e.value)
+                else:
+                    cur.append(e)
+            if cur:
+                segs.append(ast.List(elts=cur, ctx=ast.Load()))
+            if len(segs) >= 2:
+                m = segs[0]
+                for sg in segs[1:]:
+                    m = ast.BinOp(left=m, op=ast.Add(), right=sg)
+                ast.copy_location(m, n)
+                ast.fix_missing_locations(m)
+                m._v = ["concat", 1]
+                return m
+        return n
+
     def visit_Call(self, n):
         n = self.generic_visit(n)
+        fn_ = ast.unparse(n.func)
+        if fn_ in ("set", "list") and len(n.args) == 1 and not n.keywords and isinstance(n.args[0], ast.GeneratorExp) and fn_ == "set":
+            n._v = ["comp", 0]
+            return n
+        if fn_ == "zip":
+            strict = [k for k in n.keywords if k.arg == "strict"]
+            if strict and isinstance(strict[0].value, ast.Constant) and strict[0].value.value is False:
+                n.keywords = [k for k in n.keywords if k.arg != "strict"]
+                n._v = ["zip", 1, 0]
+            elif not n.keywords:
+                n._v = ["zip", 0, 0]
+            return n
+        if fn_ in ("itertools.pairwise", "pairwise") and len(n.args) == 1 and not n.keywords and _no_eval_order(n.args[0]):
+            x = n.args[0]
+            m = ast.Call(func=ast.Name(id="zip", ctx=ast.Load()), args=[x, ast.Subscript(value=copy.deepcopy(x), slice=ast.Slice(lower=ast.Constant(value=1)), ctx=ast.Load())], keywords=[])
+            ast.copy_location(m, n)
+            ast.fix_missing_locations(m)
+            m._v = ["zip", 0, 1 if fn_ == "pairwise" else 2]
+            return m
+        if fn_ == "int" and len(n.args) == 1 and not n.keywords and isinstance(n.args[0], ast.Call) and ast.unparse(n.args[0].func) == "round" and len(n.args[0].args) == 1 and not n.args[0].keywords:
+            m = n.args[0]
+            m._v = ["intround", 1]
+            return m
+        if fn_ == "round" and len(n.args) == 1 and not n.keywords:
+            n._v = ["intround", 0]
+            return n
         if isinstance(n.func, ast.Attribute) and n.func.attr == "fromkeys" and isinstance(n.func.value, ast.Name) and n.func.value.id == "dict" and len(n.args) == 2 and not n.keywords and self._immutable_value(n.args[1], None):
             k = "_k"
             m = ast.DictComp(key=ast.Name(id=k, ctx=ast.Load()), value=n.args[1], generators=[ast.comprehension(target=ast.Name(id=k, ctx=ast.Store()), iter=n.args[0], ifs=[], is_async=0)])
@@ -422,6 +510,9 @@ class _Normaliser(ast.NodeTransformer):
 
     def visit_BinOp(self, n):
         n = self.generic_visit(n)
+        if isinstance(n.op, ast.Add) and (isinstance(n.left, ast.List) or isinstance(n.right, ast.List)) and not (isinstance(n.left, ast.BinOp) and isinstance(getattr(n.left, "_v", None), list) and n.left._v[0] == "concat"):
+            n._v = ["concat", 0]
+            return n
         if isinstance(n.op, (ast.Add, ast.Mult)):
             if _num_const(n.left) and not isinstance(n.right, ast.Constant):
                 m = ast.copy_location(ast.BinOp(left=n.right, op=n.op, right=n.left), n)
@@ -497,6 +588,11 @@ class _Restorer(ast.NodeTransformer):
             while i < len(b):
                 s = b[i]
                 v = self.want.get(id(s))
+                if isinstance(s, ast.If) and isinstance(v, list) and v and v[0] == "boolret" and v[1] == 1 and i + 1 < len(b):
+                    r = ast.copy_location(ast.Return(value=ast.Call(func=ast.Name(id="bool", ctx=ast.Load()), args=[s.test], keywords=[])), s)
+                    out.append(r)
+                    i += 2
+                    continue
                 if isinstance(s, ast.If) and isinstance(v, list) and v and v[0] == "else" and v[1] > 0 and not s.orelse:
                     s.orelse = b[i + 1 : i + 1 + v[1]]
                     i += 1 + v[1]
@@ -558,6 +654,40 @@ class _Restorer(ast.NodeTransformer):
         n = self.generic_visit(n)
         if v == 1:
             return ast.copy_location(ast.BinOp(left=n.right, op=n.op, right=n.left), n)
+        if isinstance(v, list) and v and v[0] == "concat" and v[1] == 1:
+            segs = []
+
+            def flat(e):
+                if isinstance(e, ast.BinOp) and isinstance(e.op, ast.Add):
+                    flat(e.left)
+                    flat(e.right)
+                else:
+                    segs.append(e)
+
+            flat(n)
+            elts = []
+            for sg in segs:
+                if isinstance(sg, ast.List):
+                    elts.extend(sg.elts)
+                else:
+                    elts.append(ast.Starred(value=sg, ctx=ast.Load()))
+            return ast.copy_location(ast.List(elts=elts, ctx=ast.Load()), n)
+        return n
+
+    def visit_Call(self, n):
+        v = self.want.get(id(n), 0)
+        n = self.generic_visit(n)
+        if isinstance(v, list) and v:
+            if v[0] == "comp" and v[1] == 1 and n.args and isinstance(n.args[0], ast.GeneratorExp):
+                return ast.copy_location(ast.SetComp(elt=n.args[0].elt, generators=n.args[0].generators), n)
+            if v[0] == "zip":
+                if len(v) > 2 and v[2] in (1, 2) and len(n.args) == 2:
+                    f_ = ast.Name(id="pairwise", ctx=ast.Load()) if v[2] == 1 else ast.Attribute(value=ast.Name(id="itertools", ctx=ast.Load()), attr="pairwise", ctx=ast.Load())
+                    return ast.copy_location(ast.Call(func=f_, args=[n.args[0]], keywords=[]), n)
+                if v[1] == 1:
+                    n.keywords = list(n.keywords) + [ast.keyword(arg="strict", value=ast.Constant(value=False))]
+            if v[0] == "intround" and v[1] == 1:
+                return ast.copy_location(ast.Call(func=ast.Name(id="int", ctx=ast.Load()), args=[n], keywords=[]), n)
         return n
 
     def visit_DictComp(self, n):
